@@ -112,6 +112,8 @@ func drive(prop string, r *rand.Rand, w *writer, n int) {
 		driveInflateOpen(r, w, n)
 	case "C08":
 		driveMink(r, w, n)
+	case "C07":
+		driveDvi(r, w, n)
 	case "C04":
 		driveTree(r, w, n)
 	case "C09":
@@ -197,6 +199,13 @@ func reexec(b []byte, w *writer) {
 		old := e.Probes
 		execMink(r, &e)
 		e.Probes = mergeProbes(e.Probes, old)
+		w.emit(&e)
+	case "DvsI":
+		var e DviEv
+		if err := json.Unmarshal(b, &e); err != nil {
+			fatal(err)
+		}
+		execDvi(&e, dviIn{a: bToDec(e.A), b: bToDec(e.B)})
 		w.emit(&e)
 	case "TreeOp":
 		var e TreeEv
